@@ -12,6 +12,7 @@ type Seg struct {
 	Kind string `json:"k"` // rand | text | run | period | repeat | fib | near | inc
 	N    int    `json:"n"` // length in bytes
 	A    int    `json:"a,omitempty"`
+	B    int    `json:"b,omitempty"` // kind "fib": 1 = counts start 1,2,3,5 instead of 1,1,2,3
 	Seed uint64 `json:"s,omitempty"`
 	Raw  []byte `json:"raw,omitempty"` // kind "raw": literal bytes (used by fuzz targets and replays)
 }
@@ -215,6 +216,10 @@ func (s Seg) appendTo(out []byte) []byte {
 			a = 40
 		}
 		fa, fb := 1, 1
+		if s.B == 1 {
+			// counts 1,2,3,5,...: with the end-of-block symbol as the other 1, the optimal code is one chain of depth a
+			fa, fb = 1, 2
+		}
 		var pool []byte
 		for k := 0; k < a && len(pool) < n; k++ {
 			for j := 0; j < fa && len(pool) < n; j++ {
@@ -301,6 +306,10 @@ func DrawSeg(t *rapid.T, n int) Seg {
 	switch k {
 	case "rand":
 		s.A = rapid.SampledFrom(alphabets).Draw(t, "alpha")
+		if rapid.IntRange(0, 3).Draw(t, "alphasweep") == 0 {
+			// any alphabet size: the gap of unused literal codes after it can have any length
+			s.A = rapid.IntRange(1, 256).Draw(t, "alphaany")
+		}
 	case "run":
 		s.A = rapid.IntRange(0, 255).Draw(t, "byte")
 	case "period":
